@@ -277,3 +277,13 @@ def expansion_no_panic(O):
     from . import C05, dri
     lay = C05.Layout("three inputs", ["in", "in", "in"], [2, 0, 1])
     C05.run_layout(O, lay, 10, in_kinds=("Number", "X"), rep=dri.Rep({"family": "runtime"}, runtime_battery(), runtime_judge))
+
+
+@obligation("C10/frame-discipline", profiles=("dev",),
+            desc="the invariant behind EndIterateInner's unwrap/expect on the counter lookup, per interpreter arm from an "
+                 "arbitrary state: a frame is pushed only when a loop is entered (0 < bound) together with the counter's "
+                 "binding, a skipped loop touches no frame, and exactly one frame is popped when a loop ends - so the frame "
+                 "holding the counter is there whenever it is read back")
+def frame_discipline(O):
+    from . import C01
+    C01.interpreter_arms(O)
